@@ -22,7 +22,8 @@ DATA_PATCH = [b"\x01", b"\x02\x03", b"\x04\x05\x06\x07"]
 class Case:
     """A module description (pure data), independent of gtirb objects, so that it can be rebuilt identically."""
 
-    def __init__(self, rnd, nfun_max=2, with_data=True, with_aux=True, with_cfi=True, mods="ins,del,rep", with_funcs=True, max_mods=3):
+    def __init__(self, rnd, nfun_max=2, with_data=True, with_aux=True, with_cfi=True, mods="ins,del,rep", with_funcs=True, max_mods=3,
+                 closed_tail=False, to_proxy=True):
         self.rnd = rnd
         nfun = rnd.randint(0 if with_funcs else 0, nfun_max) if with_funcs else 0
         self.blocks = []          # dicts: kind 'c'/'d', insns [(kind,target)], data bytes, func index or None, labels
@@ -48,6 +49,11 @@ class Case:
             own = [x for x in layout if x.get("func") == f]
             own[-1]["ins"][-1] = ("ret", None)
         self.blocks = layout
+        if closed_tail:
+            # every block that can fall through is followed by code: a code block in front of data / the end ends in ret or jmp
+            for i, x in enumerate(layout):
+                if x["kind"] == "c" and (i + 1 == len(layout) or layout[i + 1]["kind"] != "c") and x["ins"][-1][0] not in ("ret", "jmp"):
+                    x["ins"][-1] = (rnd.choice(["ret", "jmp"]), None)
         code_idx = [i for i, x in enumerate(layout) if x["kind"] == "c"]
         for i in code_idx:
             k, _ = layout[i]["ins"][-1]
@@ -120,7 +126,7 @@ class Case:
                 else:
                     patch = rnd.choice(DATA_PATCH)
                 whole = t == "del" and off == 0 and ln == self.size(i) and x["kind"] == "c"
-                self.mods.append((i, t, off, ln, None if t == "del" else patch, whole and rnd.random() < 0.4))
+                self.mods.append((i, t, off, ln, None if t == "del" else patch, whole and to_proxy and rnd.random() < 0.4))
 
     # ---- explicit form (corpus entries do not depend on the generator)
     def to_json(self):
